@@ -77,6 +77,19 @@ Theorem C11_groups_partial : forall srt k ks rows sorted,
 Proof. exact d11_runs_are_groups. Qed.
 Print Assumptions C11_groups_partial.
 
+(* ... and the aggregates do not depend on the order of the rows inside a group: what Reduce computes over a run is
+   what the property asks for over the group (any permutation of it) *)
+Theorem C11_aggregates_order_independent : forall a g g' c c',
+  Permutation g g' ->
+  match g with r :: _ => rget r (a_in a) = Some c | [] => True end ->
+  match g' with r :: _ => rget r (a_in a) = Some c' | [] => True end ->
+  (a_acc a = AccCount -> reduce_column a g = reduce_column a g') /\
+  (a_acc a = AccCountDistinct -> reduce_column a g = reduce_column a g') /\
+  (a_acc a = AccSumInt -> forall vs, map (fun r => rget r (a_in a)) g = map int_cell vs ->
+     reduce_column a g = reduce_column a g').
+Proof. exact aggregates_order_independent. Qed.
+Print Assumptions C11_aggregates_order_independent.
+
 (* D11 is inhabited non-trivially: two grouping columns (node, int64), three groups, one of them with two rows *)
 Definition ex_row (n : string) (i v : Z) : row :=
   [(1%N, CN (list_byte_of_string n)); (2%N, CL (int_lit i)); (3%N, CL (int_lit v))].
